@@ -116,6 +116,10 @@ namespace nmtools::functional
                     }
                 } else
                 #endif
+                // skip alias
+                if constexpr (meta::is_same_view_v<view::alias_t,operand_t>) {
+                    return init;
+                } else
                 if constexpr (meta::is_view_v<operand_t>) {
                     return init * get_function_composition(operand);
                 } else if constexpr (
